@@ -593,7 +593,7 @@ func (c *c07) buildCases(thorough bool) []*c07Case {
 }
 
 func checkC07(run *mon.Run, rng *mon.Rand, thorough bool) {
-	run.Rule = "input classes = recipient {fresh, existing, wrong-prefix bech32, text, 3000 chars, non-ASCII, blocked fee collector, opchild module} x amount {0,1,1e6,2^63,2^64-1} x payload {none, random bytes, valid signed hook with 1/3 messages, hook failing/panicking/out-of-gas at message j, HookMaxGas tiny/zero, wrong key/chain/sequence, unsigned, truncated, overspending}; for each class a fault-free run records the ordered bank/account-keeper calls (four proxy layers: opchild->bank, opchild->auth, bank->auth, ante->auth, plus the hook's bank MsgSend) and then an error and a panic are injected at every call index. An outcome classifier over balances/supply/sequences/events decides CREDIT / REFUND / illegal. Distinct non-trivial = (class, site, call index, kind) whose fault actually fired"
+	run.Rule = "input classes = recipient {fresh, existing, wrong-prefix bech32, text, 3000 chars, non-ASCII, blocked fee collector, opchild module} x amount {0,1,1e6,2^63,2^64-1} x payload {none, random bytes, valid signed hook with 1/3 messages, hook failing/panicking/out-of-gas at message j, HookMaxGas tiny/zero, wrong key/chain/sequence, unsigned, truncated, overspending}; for each class a fault-free run records the ordered bank/account-keeper calls (four proxy layers: opchild->bank, opchild->auth, bank->auth, ante->auth, plus the hook's bank MsgSend) and then an error and a panic are injected at every call index. An outcome classifier over balances/supply/sequences/events decides CREDIT / REFUND / illegal. Distinct non-trivial = (class, site, call index, kind) whose fault actually fired Plus: every payload class re-run on a meter that already consumed 7M gas (same outcome, same gas), payloads up to 1 MiB, and a stale-hook replay scenario."
 	run.Assumptions = []string{"outer gas limit 200M covers handler + hook allowance (premise of the property)",
 		"sites outside the sentence 'failing hook or failing mint/transfer' (zero-amount account creation, denom metadata, reclaim/burn) are asserted as legal-outcome-or-atomic-error-with-successful-retry; see DESIGN.md C07",
 		"a newly created recipient account may remain after a refund (balances, supply and hook-target state may not)"}
